@@ -218,7 +218,12 @@ func WireValue(r *mon.Rand, depth int, allowTags bool) *Node {
 			case 1:
 				return refcbor.NTag(1, refcbor.NInt(1363896240))
 			case 2:
-				return refcbor.NTag(2, refcbor.NBstr([]byte{1, 0, 0, 0, 0, 0, 0, 0, 0}))
+				// bignums of every size, incl. values that would also fit a plain integer
+				b := r.Bytes(1 + r.Intn(10))
+				if r.Bool() {
+					b[0] |= 0x80
+				}
+				return refcbor.NTag(uint64(2+r.Intn(2)), refcbor.NBstr(b))
 			default:
 				return refcbor.NTag(uint64(1000+r.Intn(100)), WireValue(r, depth+1, false))
 			}
